@@ -170,7 +170,7 @@ type pubspec struct {
 	Version      string                      `yaml:"version"`
 	Description  string                      `yaml:"description"`
 	Environment  env                         `yaml:"environment"`
-	Dependencies map[interface{}]interface{} `yaml:"dependencies"`
+	Dependencies yaml.MapSlice               `yaml:"dependencies"`
 }
 
 type env struct {
@@ -266,6 +266,20 @@ func (g *Generator) addToPubspec(dir string) error {
 		name = namespace.Value
 	}
 
+	// Write the dependencies in sorted key order. yaml.v2 orders the keys of a
+	// Go map with a "natural" comparison that is not transitive
+	// (n1x < n2 < n10 < n1x), so the emitted order depended on Go's randomized
+	// map iteration order for such library names.
+	depNames := make([]string, 0, len(deps))
+	for depName := range deps {
+		depNames = append(depNames, depName.(string))
+	}
+	sort.Strings(depNames)
+	orderedDeps := make(yaml.MapSlice, 0, len(depNames))
+	for _, depName := range depNames {
+		orderedDeps = append(orderedDeps, yaml.MapItem{Key: depName, Value: deps[depName]})
+	}
+
 	ps := &pubspec{
 		Name:        toLibraryName(name),
 		Version:     globals.Version,
@@ -273,7 +287,7 @@ func (g *Generator) addToPubspec(dir string) error {
 		Environment: env{
 			SDK: sdkRange,
 		},
-		Dependencies: deps,
+		Dependencies: orderedDeps,
 	}
 
 	d, err := yaml.Marshal(&ps)
